@@ -7,6 +7,8 @@ MC_FlagsQuick == {[unsafe |-> FALSE, ext |-> e, buf |-> b] : e \in BOOLEAN, b \i
 MC_FlagsAll == {[unsafe |-> u, ext |-> e, buf |-> b] : u \in BOOLEAN, e \in BOOLEAN, b \in BOOLEAN}
 MC_FlagsSafe == {[unsafe |-> FALSE, ext |-> e, buf |-> b] : e \in BOOLEAN, b \in BOOLEAN}
 MC_FlagsOn == {[unsafe |-> FALSE, ext |-> TRUE, buf |-> TRUE]}
-MC_RangesDeep == {<<4, 5>>}
+MC_RangesDeep == {<<4, 4>>}
+MC_RangesQuick == {<<0, 0>>, <<2, 1>>, <<1, 3>>}
+MC_ProtoDeep == {1, 5}
 MC_RangesLife == {<<0, 0>>, <<2, 3>>}
 =============================================================================
